@@ -203,6 +203,64 @@ def make_k4(s, t, backend, strict):
     return run
 
 
+def k5_run(carve):
+    """native: a cast of a LITERAL operand gives the same value as the cast of a column holding that value, on both
+    backends, for every accepted pair of the sample types (the const-ness of the operand must not change the cast)"""
+    import datetime as dt
+    import warnings
+
+    import polars as pl
+    import sqlalchemy as sqa
+
+    from .c13 import _enum_outcome
+
+    pdt = H.pdt
+    samples = {
+        "Int64": (pdt.Int64(), [3, -2, 0]), "Float64": (pdt.Float64(), [2.75, -1.5, 4.0]), "String": (pdt.String(), ["12", "-7", "3"]), "Bool": (pdt.Bool(), [True, False, True]),
+        "Date": (pdt.Date(), [dt.date(2020, 2, 29), dt.date(1999, 12, 31), dt.date(1970, 1, 2)]), "Datetime": (pdt.Datetime(), [dt.datetime(2020, 2, 29, 13, 14, 15), dt.datetime(1999, 12, 31, 23, 59, 59), dt.datetime(1970, 1, 2, 0, 0, 1)]),
+    }
+    targets = [pdt.Int64(), pdt.Int32(), pdt.Float64(), pdt.String(), pdt.Date(), pdt.Datetime(), pdt.Bool()]
+    df = pl.DataFrame({k: pl.Series(k, v, dtype=t.to_polars()) for k, (t, v) in samples.items()})
+    eng = sqa.create_engine("sqlite://")
+    df.write_database("t", eng)
+    n, bad = 0, []
+
+    def norm(v):
+        if isinstance(v, float):
+            return round(v, 9)
+        return v
+
+    with warnings.catch_warnings():
+        warnings.simplefilter("ignore")
+        for be, t in (("polars", pdt.Table(df, name="t")), ("sqlite", pdt.Table("t", pdt.SqlAlchemy(eng)))):
+            for sname, (st, vals) in samples.items():
+                for tgt in targets:
+                    try:
+                        e_col = t[sname].cast(tgt)
+                    except pdt.errors.DataTypeError:
+                        continue
+                    n += 1
+                    try:
+                        col_res = (t >> pdt.mutate(r=e_col) >> pdt.export(pdt.Polars()))["r"].to_list()
+                    except (pdt.errors.NotSupportedError,):
+                        continue
+                    except Exception as ex:  # noqa: BLE001
+                        bad.append(f"[{be}] column {sname}.cast({tgt}) fails at export: {type(ex).__name__}: {str(ex)[:120]}")
+                        continue
+                    for v, want in zip(vals, col_res):
+                        try:
+                            lit_res = (t >> pdt.mutate(r=pdt.lit(v).cast(tgt)) >> pdt.export(pdt.Polars()))["r"].to_list()
+                        except pdt.errors.NotSupportedError:
+                            continue
+                        except Exception as ex:  # noqa: BLE001
+                            bad.append(f"[{be}] lit({v!r}).cast({tgt}) fails ({type(ex).__name__}: {str(ex)[:100]}) although the column cast {sname}.cast({tgt}) works")
+                            break
+                        if any(norm(x) != norm(want) for x in lit_res):
+                            bad.append(f"[{be}] lit({v!r}).cast({tgt}) = {lit_res[0]!r}, the column cast of the same value gives {want!r}")
+                            break
+    return _enum_outcome("a cast of a literal operand gives the value of the cast of a column holding that value (6 source types x 7 targets x 3 values x 2 backends)", n, bad)
+
+
 def obligations(tier):
     fi = H.fn_info
     cfns = [fi(Cast.__init__), fi(Cast.is_valid_cast), fi(Cast.dtype), fi(T.converts_to)]
@@ -213,6 +271,8 @@ def obligations(tier):
         Obligation("C17/K3/engine_types", "K3", "engine types exist for accepted targets (never an execution-time failure)", k3_run,
                    functions=cfns + [fi(H.sql_backend.SqlImpl.sqa_type)], bounded=TU.BOUND_TEXT, carveouts={"nested_list": "List of List targets"}),
     ]
+    obs.append(Obligation("C17/K5/literal_operands", "K5", "casts of literal (const) operands agree with casts of columns, natively on both backends", k5_run,
+                          functions=cfns + [fi(H.sqlite_backend.SqliteImpl.compile_cast), fi(H.polars_backend.compile_col_expr), fi(H.sql_backend.SqlImpl.compile_lit)], bounded="6 source types x 7 targets x 3 sample values x 2 backends (native execution)"))
     targets = [Int64(), H.pdt.Int32(), Float64(), Float32(), String(), Date(), Datetime(), Enum("a", "b")]
     for s in K4_SOURCES:
         for t in targets:
